@@ -13,6 +13,12 @@ R12.c  dispatcher: every attribute written on the dispatch path is
 R12.d  pristine copy: ``GraphUpdater.reset`` rebinds the graph from a deep
        copy of an attribute that is itself a deep copy taken at construction
        and is never written or mutated afterwards.
+R12.f  no stale aliases: an observer attribute never keeps a container its
+       owner *replaces* on reset (the schedule's list of machine lists, the
+       dispatcher's tracking vectors) unless the observer's own reset re-reads
+       it.  R12.a/R12.c additionally hold at path level: an attribute the
+       update phase writes is written on every returning path of reset that is
+       compatible with the update path's configuration (no early exits).
 R12.e  environments: ``reset`` calls ``dispatcher.reset()`` before building
        the observation; attributes touched by ``step`` are re-established;
        the multi environment rebuilds its inner environment with the full
@@ -40,7 +46,9 @@ MANIFEST = {
         "the result is independent of creation order; the graph updater "
         "restores from a never-mutated deep copy; environment reset resets the "
         "dispatcher before observing and the multi environment forwards its "
-        "whole stored configuration. A violated instance implies a second "
+        "whole stored configuration; no observer keeps a reference to a container "
+        "its owner replaces on reset; reset has no early exit that skips an "
+        "attribute the update phase writes. A violated instance implies a second "
         "episode that differs from the first."
     ),
     "note": (
